@@ -5,13 +5,13 @@ import json, os, subprocess
 ENV = "GOFLAGS=-mod=mod GOWORK=off GOPROXY=off GOSUMDB=off GOTOOLCHAIN=local"
 
 # id -> (level category, technique, level text, level note, design ref)
-CHECKS = {
- "C05": ("fault_enumeration",
-         "runtime monitor on scripted fault-injecting conn pairs around the real halfPipe/Proxy (online byte-stream, teardown and byte-count oracles)",
-         "Every single fault of the universe (kind x call index x side) and seeded pairs are injected into both relay directions of the real code; the oracle compares bytes delivered with bytes read, Close calls, leftover goroutines (stack scan), reported byte counts and the session gauge. Assurance: the property held on every executed fault sequence; reach is the enumerated universe, not all schedules.",
-         "Trusts that scripted conns shape errors as package net does; kernel-level TCP effects (RST destroying written data) are outside the monitor.",
-         "DESIGN.md §4 C05"),
-}
+CHECKS = {}
+_d = os.path.join(os.path.dirname(os.path.abspath(__file__)), "manifest.d")
+for _f in sorted(os.listdir(_d)):
+    if _f.endswith(".json"):
+        _e = json.load(open(os.path.join(_d, _f)))
+        CHECKS[_e["property_id"]] = (_e["category"], _e["technique"], _e["text"], _e["note"], _e["design_ref"])
+
 
 PENDING_REASON = "check not built yet in this session (work in progress; see DESIGN.md §4 for the planned monitor)"
 
